@@ -159,10 +159,9 @@ structure Assembled where
   hits : List RawMatch
 deriving Repr, Inhabited
 
-/-- one part: shift the offsets of its matches by the text assembled so far, append text and
+/-- one submitted part: shift the offsets of its matches by the text assembled so far, append text and
     map, pad with the delimiter `'\n\n'` mapped to the last position -/
-def assembleStep (a : Assembled) (p : Part × List RawMatch) : Assembled :=
-  if p.1.plain.all (fun c => c == ' ' || c == '\n' || c == '\t') && false then a else
+def assembleStepNB (a : Assembled) (p : Part × List RawMatch) : Assembled :=
   let shift : Int := a.plainTot.length
   let ms := p.2.map (fun m => { m with offset := m.offset + shift })
   let cm := a.charmapTot ++ p.1.charmap
@@ -170,6 +169,15 @@ def assembleStep (a : Assembled) (p : Part × List RawMatch) : Assembled :=
   { plainTot := a.plainTot ++ p.1.plain ++ ['\n', '\n'],
     charmapTot := cm ++ [last, last],
     hits := a.hits ++ ms }
+
+/-- assembly of parts that are all submitted -/
+def assembleNB (ps : List (Part × List RawMatch)) : Assembled :=
+  ps.foldl assembleStepNB { plainTot := [], charmapTot := [], hits := [] }
+
+/-- one part of the loop of `run_proofreader_options`: `if not plain.strip(): continue` — a blank part is
+    not submitted and leaves no trace in text, map and matches -/
+def assembleStep (a : Assembled) (p : Part × List RawMatch) : Assembled :=
+  if isBlank p.1.plain then a else assembleStepNB a p
 
 def assemble (ps : List (Part × List RawMatch)) : Assembled :=
   ps.foldl assembleStep { plainTot := [], charmapTot := [], hits := [] }
